@@ -522,8 +522,8 @@ class C18(Check):
                 if cfg_files and rng.random() < 0.2:
                     target = rng.choice(sorted(cfg_files))
                 tokens = []
-                if rng.random() < 0.25 and target is None:
-                    tokens = self._gen_tokens(rng, keys, dflt, 2)
+                if rng.random() < 0.35 and target is None:
+                    tokens = self._gen_tokens(rng, keys, dflt, 3)
                 ops.append({"op": "merge", "target": target, "other": other,
                             "soft": rng.random() < 0.5, "tokens": tokens,
                             "no_color": rng.random() < 0.85})
@@ -621,6 +621,15 @@ class C18(Check):
             # values never spell a key of the target
             g = [g[0]] + [t if t not in tkeys else t + "_" for t in g[1:]]
             tokens += g
+        if rng.random() < 0.2:
+            # a boolean named again later in the same command: the second
+            # mention acts on what the first one left
+            bools = [t for t in tokens if t in tkeys and isinstance(
+                tmodel.get(t, self.dflt.get(t)), bool)]
+            if bools:
+                k = rng.choice(bools)
+                tokens += [k] + ([] if rng.random() < 0.6 else
+                                 [rng.choice(["true", "false"])])
         return tokens
 
     @staticmethod
